@@ -182,13 +182,15 @@ def run_derived(chk, spec):
 	rng = random.Random(spec["seed"])
 	n = spec["n"]
 	kind = spec["kind"]
-	vals = {"int": [rng.randrange(9) for _ in range(n)], "str": [rng.choice("abc") for _ in range(n)], "float": [rng.random() for _ in range(n)]}[kind]
+	vals = {"int": [rng.randrange(9) for _ in range(n)], "str": [rng.choice("abc") for _ in range(n)], "float": [rng.random() for _ in range(n)],
+		"object": [rng.choice([1, "a", 2.5, b"x"]) for _ in range(n)] + ["s", 7], "object-nullable": [rng.choice([1, "a", None]) for _ in range(n)] + ["s", 7, None]}[kind]
+	n = len(vals)
 	v = Vector(list(vals), name="v")
 	ops = {
 		"copy": lambda: v.copy(), "slice-full": lambda: v[:], "slice-0-n": lambda: v[0:n], "slice-0-big": lambda: v[0:n + 5], "slice-neg": lambda: v[-n:],
 		"slice-step1": lambda: v[::1], "mask-all": lambda: v[[True] * n], "mask-all-vector": lambda: v[Vector([True] * n)], "T": lambda: v.T, "lshift-empty": lambda: v << [],
 		"rlshift-empty": lambda: [] << v, "lshift-empty-tuple": lambda: v << (), "sort": lambda: v.sort_by(), "fillna": lambda: v.fillna(vals[0]), "dropna": lambda: v.dropna(),
-		"pos": lambda: +v, "cast-same": lambda: v.cast(type(vals[0])), "to_object": lambda: v.to_object(), "index-all": lambda: v[list(range(n))],
+		"pos": lambda: +v, "cast-same": lambda: v.cast(type(vals[0])) if not kind.startswith("object") else v.cast(object), "to_object": lambda: v.to_object(), "index-all": lambda: v[list(range(n))],
 		"table-column": lambda: Table([v]).cols()[0], "table-column-slice": lambda: Table([v])[0:n].cols()[0], "unique": lambda: Vector(sorted(set(vals))).unique(), "copy-of-copy": lambda: v.copy().copy(),
 		"rshift-column": lambda: (v >> v).cols()[1], "lshift-none-then-slice": lambda: (v << [])[0:n],
 	}
@@ -231,7 +233,7 @@ def run(chk):
 			for n in (2, 4):
 				chk.case("sharing", {"sharers": k, "n": n, "release": "del-gc", "use": use}, "sharing-after-use")
 	for op in DERIVED_OPS:
-		for kind in ("int", "str", "float"):
+		for kind in ("int", "str", "float", "object", "object-nullable"):
 			for n in (1, 2, 5):
 				chk.case("derived", {"op": op, "kind": kind, "n": n, "seed": rng.randrange(10**9)}, "derived")
 	idx = 0
